@@ -1149,4 +1149,372 @@ theorem checkEdgeOverlap_toReal (wrap : Bool) (turn : Q) (ht : WF turn) (l : Lis
 where
   sortByBegin_perm_Q (l : List (Q × Q)) : (sortByBegin l).Perm l := List.mergeSort_perm _ _
 
+/-! ## What acceptance by `_check_edges` (current code, with the comparison across top-dead-centre) gives -/
+
+/-- **check_edges_accept_iff** (current code): a slit set is accepted iff the arrays have equal length, every
+`begin ≤ end`, the slits are pairwise disjoint on the line, and every end lies at most one turn after every begin -/
+theorem check_edges_accept_iff (begins ends : List ℝ) :
+    checkEdges true 1 begins ends = .ok () ↔
+      begins.length = ends.length ∧ (∀ s ∈ begins.zip ends, s.1 ≤ s.2) ∧
+      (begins.zip ends).Pairwise DisjointOnLine ∧
+      ∀ s ∈ begins.zip ends, ∀ t ∈ begins.zip ends, t.2 ≤ s.1 + 1 := by
+  obtain ⟨h1, h2, h3⟩ := check_edges_spec true 1 begins ends
+  by_cases hl : begins.length = ends.length
+  · by_cases hb : ∀ s ∈ begins.zip ends, s.1 ≤ s.2
+    · rw [h3 hl hb, overlap_rejected_iff_fixed _ hb]
+      exact ⟨fun h => ⟨hl, hb, h.1, h.2⟩, fun h => ⟨h.2.2.1, h.2.2.2⟩⟩
+    · have hex : ∃ s ∈ begins.zip ends, s.2 < s.1 := by
+        by_contra hne
+        apply hb; intro s hs
+        by_contra hlt
+        exact hne ⟨s, hs, not_le.mp hlt⟩
+      rw [h2 hl hex]
+      exact ⟨fun h => (by cases h), fun h => absurd h.2.1 hb⟩
+  · rw [h1 hl]
+    exact ⟨fun h => (by cases h), fun h => absurd h.1 hl⟩
+
+/-- accepted slits: the hypothesis `none_missing` really needs (non-strict version of `WithinOneTurn`) -/
+def TurnBounded (slits : List (ℝ × ℝ)) : Prop :=
+  (∀ s ∈ slits, s.1 ≤ s.2) ∧ ∀ s ∈ slits, ∀ t ∈ slits, t.2 ≤ s.1 + 1
+
+/-- **accepted_implies_within_one_turn**: acceptance implies that all slits lie within one turn of each other
+(non-strictly: the last end may coincide with the first begin one turn later — slits touching across
+top-dead-centre and a single slit of exactly one turn are accepted) -/
+theorem accepted_implies_within_one_turn (begins ends : List ℝ) (h : checkEdges true 1 begins ends = .ok ()) :
+    TurnBounded (begins.zip ends) := by
+  obtain ⟨_, hb, _, ht⟩ := (check_edges_accept_iff begins ends).mp h
+  exact ⟨hb, ht⟩
+
+theorem turnBounded_normal_form (d : Disk ℝ) (h : TurnBounded d.slits)
+    (s : ℝ × ℝ) (hs : s ∈ d.slits) (s' : ℝ × ℝ) (hs' : s' ∈ d.slits) :
+    aClose d s' ≤ aOpen d s + 1 ∧ aOpen d s ≤ aClose d s := by
+  have h1 := h.2 s hs s' hs'
+  have h2 := h.2 s' hs' s hs
+  have h3 := h.1 s hs
+  unfold aOpen aClose
+  split <;> constructor <;> linarith
+
+/-- `none_missing` under the non-strict bound that acceptance provides -/
+theorem none_missing_of_turnBounded (d : Disk ℝ) (hf : d.freq ≠ 0) (n : Nat) (hw : TurnBounded d.slits)
+    (t : ℝ) (hopen : OpenAt d t)
+    (hlo : ∃ p ∈ openings d n, p.1 ≤ t) (hhi : ∃ p ∈ openings d n, t ≤ p.2) :
+    ∃ p ∈ openings d n, p.1 ≤ t ∧ t ≤ p.2 := by
+  have hF : 0 < |d.freq| := abs_pos.mpr hf
+  obtain ⟨s, hs, hso⟩ := hopen
+  obtain ⟨k, hk1, hk2⟩ := (slitOpenAt_iff d hf s t).mp hso
+  obtain ⟨p0, hp0, hp0t⟩ := hlo
+  obtain ⟨p1, hp1, hp1t⟩ := hhi
+  obtain ⟨k0, hk0, s0, hs0, rfl⟩ := (mem_openings d n p0).mp hp0
+  obtain ⟨k1, hk1', s1, hs1, rfl⟩ := (mem_openings d n p1).mp hp1
+  have hk0' := (mem_turns n k0).mp hk0
+  have hk1'' := (mem_turns n k1).mp hk1'
+  have hp0t' := hp0t
+  have hp1t' := hp1t
+  simp only [openTime_eq d hf, closeTime_eq d hf, div_le_iff₀ hF, le_div_iff₀ hF] at hp0t' hp1t'
+  have ha := turnBounded_normal_form d hw s0 hs0 s hs     -- aClose s ≤ aOpen s0 + 1
+  have hb := turnBounded_normal_form d hw s hs s1 hs1     -- aClose s1 ≤ aOpen s + 1
+  have hc := turnBounded_normal_form d hw s1 hs1 s1 hs1
+  by_cases hkl : -1 ≤ k
+  · by_cases hku : k < n
+    · refine ⟨(openTime d s k, closeTime d s k), (mem_openings d n _).mpr ⟨k, (mem_turns n k).mpr ⟨hkl, hku⟩, s, hs, rfl⟩, ?_, ?_⟩
+      · simp only [openTime_eq d hf, div_le_iff₀ hF]; linarith
+      · simp only [closeTime_eq d hf, le_div_iff₀ hF]; linarith
+    · -- the opening is in turn `k ≥ n`: then `t` is the instant at which the last reported interval closes
+      refine ⟨_, hp1, ?_, hp1t⟩
+      have : (n : ℝ) ≤ k := by
+        have : (n : ℤ) ≤ k := by omega
+        exact_mod_cast this
+      have : (k1 : ℝ) ≤ n - 1 := by
+        have : k1 ≤ (n : ℤ) - 1 := by omega
+        exact_mod_cast this
+      simp only [openTime_eq d hf, div_le_iff₀ hF]
+      linarith [hc.2]
+  · -- the opening is in turn `k ≤ −2`: then `t` is the instant at which the first reported interval opens
+    refine ⟨_, hp0, hp0t, ?_⟩
+    have : (k : ℝ) ≤ -2 := by
+      have : k ≤ -2 := by omega
+      exact_mod_cast this
+    have : (-1 : ℝ) ≤ k0 := by exact_mod_cast hk0'.1
+    simp only [closeTime_eq d hf, le_div_iff₀ hF]
+    linarith [ha.2]
+
+/-- **accepted_none_missing**: for every slit set accepted by `_check_edges` (no further hypothesis), no
+opening inside the reported span is missing -/
+theorem accepted_none_missing (freq beam phase : ℝ) (begins ends : List ℝ)
+    (hacc : checkEdges true 1 begins ends = .ok ()) (hf : freq ≠ 0) (n : Nat) (t : ℝ) :
+    let d : Disk ℝ := ⟨freq, beam, phase, begins.zip ends⟩
+    OpenAt d t → (∃ p ∈ openings d n, p.1 ≤ t) → (∃ p ∈ openings d n, t ≤ p.2) →
+      ∃ p ∈ openings d n, p.1 ≤ t ∧ t ≤ p.2 := by
+  intro d hopen hlo hhi
+  exact none_missing_of_turnBounded d hf n (accepted_implies_within_one_turn begins ends hacc) t hopen hlo hhi
+
+/-! ### separation on the circle -/
+
+theorem exists_pos_lower_bound {α : Type} (l : List α) (f : α → ℝ) (h : ∀ x ∈ l, 0 < f x) :
+    ∃ g, 0 < g ∧ ∀ x ∈ l, g ≤ f x := by
+  induction l with
+  | nil => exact ⟨1, one_pos, by simp⟩
+  | cons a t ih =>
+    obtain ⟨g, hg, hgt⟩ := ih (fun x hx => h x (List.mem_cons_of_mem _ hx))
+    refine ⟨min (f a) g, lt_min (h a (by simp)) hg, ?_⟩
+    intro x hx
+    rcases List.mem_cons.mp hx with rfl | hx
+    · exact min_le_left _ _
+    · exact le_trans (min_le_right _ _) (hgt x hx)
+
+theorem pairwise_forall_ne {α : Type} {R : α → α → Prop} (hsymm : ∀ a b, R a b → R b a) :
+    ∀ (l : List α), l.Pairwise R → ∀ a ∈ l, ∀ b ∈ l, a ≠ b → R a b
+  | [], _, a, ha, _, _, _ => by simp at ha
+  | x :: t, hp, a, ha, b, hb, hne => by
+    obtain ⟨hx, ht⟩ := List.pairwise_cons.mp hp
+    rcases List.mem_cons.mp ha with rfl | ha' <;> rcases List.mem_cons.mp hb with rfl | hb'
+    · exact absurd rfl hne
+    · exact hx b hb'
+    · exact hsymm _ _ (hx a ha')
+    · exact pairwise_forall_ne hsymm t ht a ha' b hb' hne
+
+/-- no slit ends exactly one turn after a slit begins: excludes slits that touch across top-dead-centre and a
+single slit of exactly one full turn (both are accepted by the code; the chopper then never closes there) -/
+def NoTouchAcrossTdc (slits : List (ℝ × ℝ)) : Prop := ∀ s ∈ slits, ∀ t ∈ slits, t.2 ≠ s.1 + 1
+
+/-- **accepted_implies_separated**: an accepted slit set without a touch across top-dead-centre is separated
+on the circle by a positive margin `g` (the minimum of finitely many positive gaps: neighbouring slits are
+compared strictly by the code) -/
+theorem accepted_implies_separated (begins ends : List ℝ) (hacc : checkEdges true 1 begins ends = .ok ())
+    (hnt : NoTouchAcrossTdc (begins.zip ends)) : ∃ g, 0 < g ∧ Separated (begins.zip ends) g := by
+  obtain ⟨_, hb, hpd, ht⟩ := (check_edges_accept_iff begins ends).mp hacc
+  generalize begins.zip ends = slits at hb hpd ht hnt
+  let f : (ℝ × ℝ) × (ℝ × ℝ) → ℝ := fun p =>
+    min (p.1.1 + 1 - p.2.2)
+      (if p.1.2 < p.2.1 then p.2.1 - p.1.2 else if p.2.2 < p.1.1 then p.1.1 - p.2.2 else 1)
+  let pairs := slits.flatMap (fun s => slits.map (fun s' => (s, s')))
+  have hmem : ∀ s ∈ slits, ∀ s' ∈ slits, (s, s') ∈ pairs := by
+    intro s hs s' hs'
+    simp only [pairs, List.mem_flatMap, List.mem_map]
+    exact ⟨s, hs, s', hs', rfl⟩
+  have hpos : ∀ p ∈ pairs, 0 < f p := by
+    intro p hp
+    simp only [pairs, List.mem_flatMap, List.mem_map] at hp
+    obtain ⟨s, hs, s', hs', rfl⟩ := hp
+    apply lt_min
+    · have h1 := ht s hs s' hs'
+      have h2 := hnt s hs s' hs'
+      have : s'.2 < s.1 + 1 := lt_of_le_of_ne h1 h2
+      simp only; linarith
+    · simp only
+      split
+      · linarith
+      · split
+        · linarith
+        · exact one_pos
+  obtain ⟨g, hg, hgle⟩ := exists_pos_lower_bound pairs f hpos
+  refine ⟨g, hg, ?_⟩
+  intro s hs s' hs' j
+  have h1 := hgle _ (hmem s hs s' hs')
+  have h2 := hgle _ (hmem s' hs' s hs)
+  have h1a : g ≤ s.1 + 1 - s'.2 := le_trans h1 (min_le_left _ _)
+  have h2a : g ≤ s'.1 + 1 - s.2 := le_trans h2 (min_le_left _ _)
+  rcases int_cases j with hj | hj | hj
+  · right; right; linarith
+  · subst hj
+    by_cases he : s' = s
+    · exact Or.inl ⟨he, rfl⟩
+    · have hd : DisjointOnLine s s' :=
+        pairwise_forall_ne (fun a b h => Or.symm h) slits hpd s hs s' hs' (fun e => he e.symm)
+      have h1b := le_trans h1 (min_le_right _ _)
+      simp only [] at h1b
+      rcases hd with hd | hd
+      · rw [if_pos hd] at h1b
+        right; left; push_cast; linarith
+      · have hnot : ¬ s.2 < s'.1 := by
+          intro hh; have := hb s hs; have := hb s' hs'; linarith
+        rw [if_neg hnot, if_pos hd] at h1b
+        right; right; push_cast; linarith
+  · right; left; linarith
+
+/-- **accepted_closed_just_outside** (partial: needs `NoTouchAcrossTdc`): for every accepted slit set without
+a touch across top-dead-centre there is a margin `g > 0` such that no slit is over the beam during `g/|f|`
+before every reported opening time and after every reported closing time -/
+theorem accepted_closed_just_outside_partial (freq beam phase : ℝ) (begins ends : List ℝ)
+    (hacc : checkEdges true 1 begins ends = .ok ()) (hnt : NoTouchAcrossTdc (begins.zip ends))
+    (hf : freq ≠ 0) (n : Nat) :
+    let d : Disk ℝ := ⟨freq, beam, phase, begins.zip ends⟩
+    ∃ g, 0 < g ∧ ∀ p ∈ openings d n, ∀ t,
+      (p.1 - g / |freq| < t ∧ t < p.1) ∨ (p.2 < t ∧ t < p.2 + g / |freq|) → ¬ OpenAt d t := by
+  intro d
+  obtain ⟨g, hg, hsep⟩ := accepted_implies_separated begins ends hacc hnt
+  have hb := (accepted_implies_within_one_turn begins ends hacc).1
+  exact ⟨g, hg, closed_just_outside d hf n g hsep hb⟩
+
+/-- the statement without the extra hypothesis -/
+def AcceptedClosedJustOutsideFull : Prop :=
+  ∀ (freq beam phase : ℝ) (begins ends : List ℝ), checkEdges true 1 begins ends = .ok () → freq ≠ 0 → ∀ n : Nat,
+    ∃ ε, 0 < ε ∧ ∀ p ∈ openings (⟨freq, beam, phase, begins.zip ends⟩ : Disk ℝ) n, ∀ t,
+      (p.1 - ε < t ∧ t < p.1) ∨ (p.2 < t ∧ t < p.2 + ε) → ¬ OpenAt ⟨freq, beam, phase, begins.zip ends⟩ t
+
+/-- two slits `[0°, 36°]` and `[324°, 360°]` touching across top-dead-centre, anticlockwise at unit frequency -/
+noncomputable def touchDisk : Disk ℝ := ⟨1, 0, 0, [(0, 1 / 10), (9 / 10, 1)]⟩
+
+theorem touchDisk_cw : isClockwise touchDisk = false := by simp [isClockwise, touchDisk]
+
+/-- **it is false of the code**: slits `[0°, 36°]` and `[324°, 360°]` touch across top-dead-centre and are
+accepted; immediately before the second slit opens the first one is still over the beam -/
+theorem accepted_closed_just_outside_full_false : ¬ AcceptedClosedJustOutsideFull := by
+  intro h
+  have hacc : checkEdges true 1 ([0, 9 / 10] : List ℝ) [1 / 10, 1] = .ok () := by
+    rw [check_edges_accept_iff]
+    refine ⟨rfl, ?_, ?_, ?_⟩
+    · intro s hs; simp at hs; rcases hs with rfl | rfl <;> norm_num
+    · simp [DisjointOnLine]; norm_num
+    · intro s hs t ht; simp at hs ht
+      rcases hs with rfl | rfl <;> rcases ht with rfl | rfl <;> norm_num
+  obtain ⟨ε, hε, hcl⟩ := h 1 0 0 [0, 9 / 10] [1 / 10, 1] hacc one_ne_zero 1
+  have e : (⟨1, 0, 0, ([0, 9 / 10] : List ℝ).zip [1 / 10, 1]⟩ : Disk ℝ) = touchDisk := by simp [touchDisk]
+  rw [e] at hcl
+  have hfd : touchDisk.freq ≠ 0 := by simp [touchDisk]
+  have hB : ((9 / 10 : ℝ), (1 : ℝ)) ∈ touchDisk.slits := by simp [touchDisk]
+  have hA : ((0 : ℝ), (1 / 10 : ℝ)) ∈ touchDisk.slits := by simp [touchDisk]
+  have hopenB : openTime touchDisk (9 / 10, 1) 0 = 0 := by
+    rw [openTime_eq _ hfd]; simp only [aOpen, touchDisk_cw]; simp [touchDisk]
+  have hmem : (openTime touchDisk (9 / 10, 1) 0, closeTime touchDisk (9 / 10, 1) 0) ∈ openings touchDisk 1 :=
+    (mem_openings _ 1 _).mpr ⟨0, (mem_turns 1 0).mpr ⟨by norm_num, by norm_num⟩, _, hB, rfl⟩
+  -- a time shortly before the second slit opens
+  have hm1 : 0 < min ε (1 / 10) := lt_min hε (by norm_num)
+  have hm2 : min ε (1 / 10) ≤ ε := min_le_left _ _
+  have hm3 : min ε (1 / 10) ≤ 1 / 10 := min_le_right _ _
+  have hbefore : openTime touchDisk (9 / 10, 1) 0 - ε < -(min ε (1 / 10)) / 2 ∧
+      -(min ε (1 / 10)) / 2 < openTime touchDisk (9 / 10, 1) 0 := by
+    rw [hopenB]; constructor <;> linarith
+  apply hcl _ hmem _ (Or.inl hbefore)
+  refine ⟨(0, 1 / 10), hA, (slitOpenAt_iff _ hfd _ _).mpr ⟨-1, ?_, ?_⟩⟩
+  · simp only [aOpen, touchDisk_cw]; simp only [touchDisk]; push_cast; norm_num; linarith
+  · simp only [aClose, touchDisk_cw]; simp only [touchDisk]; push_cast; norm_num; linarith
+
+/-! ## The integer-ratio test over `Q` is the one over `ℝ` -/
+
+theorem floor_toReal (a : Q) (h : WF a) : a.floor = ⌊toReal a⌋ := by
+  symm
+  rw [Int.floor_eq_iff]
+  have hd : (0 : ℝ) < a.den := denR_pos h
+  have hdz : (0 : ℤ) < (a.den : ℤ) := by exact_mod_cast h
+  unfold Q.floor toReal
+  have h1 := Int.emod_add_mul_ediv a.num a.den
+  have h2 := Int.emod_nonneg a.num (ne_of_gt hdz)
+  have h3 := Int.emod_lt_of_pos a.num hdz
+  constructor
+  · rw [le_div_iff₀ hd]
+    have : (a.num / (a.den : ℤ)) * (a.den : ℤ) ≤ a.num := by nlinarith
+    exact_mod_cast this
+  · rw [div_lt_iff₀ hd]
+    have : a.num < (a.num / (a.den : ℤ) + 1) * (a.den : ℤ) := by nlinarith
+    exact_mod_cast this
+
+theorem rintInt_toReal (a : Q) (h : WF a) : a.rintInt = rintReal (toReal a) := by
+  have hfl := floor_toReal a h
+  have hhalf : WF (⟨1, 2⟩ : Q) := by simp [WF]
+  have hhv : toReal (⟨1, 2⟩ : Q) = 1 / 2 := by simp [toReal]
+  have hr : toReal (a - Q.ofInt a.floor) = toReal a - (⌊toReal a⌋ : ℝ) := by
+    rw [toReal_sub h (ofInt_wf _), toReal_ofInt, hfl]
+  have c1 : (a - Q.ofInt a.floor < (⟨1, 2⟩ : Q)) ↔ toReal a - (⌊toReal a⌋ : ℝ) < 1 / 2 := by
+    rw [toReal_lt (sub_wf _ _) hhalf, hr, hhv]
+  have c2 : ((⟨1, 2⟩ : Q) < a - Q.ofInt a.floor) ↔ 1 / 2 < toReal a - (⌊toReal a⌋ : ℝ) := by
+    rw [toReal_lt hhalf (sub_wf _ _), hr, hhv]
+  unfold Q.rintInt rintReal
+  simp only []
+  by_cases h1 : toReal a - (⌊toReal a⌋ : ℝ) < 1 / 2
+  · rw [if_pos (c1.mpr h1), if_pos h1, hfl]
+  · rw [if_neg (fun hh => h1 (c1.mp hh)), if_neg h1]
+    by_cases h2 : 1 / 2 < toReal a - (⌊toReal a⌋ : ℝ)
+    · rw [if_pos (c2.mpr h2), if_pos h2, hfl]
+    · rw [if_neg (fun hh => h2 (c2.mp hh)), if_neg h2, hfl]
+
+theorem absv_toReal (x : Q) (h : WF x) : WF (absv x) ∧ toReal (absv x) = absv (toReal x) := by
+  unfold absv
+  have key := toReal_lt h (intCast_wf 0)
+  rw [toReal_intCast] at key
+  by_cases hc : x < ((0 : Int) : Q)
+  · rw [if_pos hc, if_pos (key.mp hc)]
+    exact ⟨neg_wf h, toReal_neg x⟩
+  · rw [if_neg hc, if_neg (fun hh => hc (key.mpr hh))]
+    exact ⟨h, rfl⟩
+
+theorem rint_toReal (q : Q) (h : WF q) : WF (Rint.rint q) ∧ toReal (Rint.rint q) = Rint.rint (toReal q) := by
+  show WF (Q.ofInt q.rintInt) ∧ toReal (Q.ofInt q.rintInt) = ((rintReal (toReal q) : ℤ) : ℝ)
+  exact ⟨ofInt_wf _, by rw [toReal_ofInt, rintInt_toReal q h]⟩
+
+theorem near_int_test_toReal (q rtol : Q) (h : WF q) (hr : WF rtol) :
+    decide (absv (Rint.rint q - q) < rtol) = decide (absv (Rint.rint (toReal q) - toReal q) < toReal rtol) := by
+  obtain ⟨hw, hv⟩ := rint_toReal q h
+  obtain ⟨haw, hav⟩ := absv_toReal (Rint.rint q - q) (sub_wf _ _)
+  apply decide_eq_decide.mpr
+  rw [toReal_lt haw hr, hav, toReal_sub hw h, hv]
+
+theorem isIntOrInverseInt_toReal (q rtol : Q) (h : WF q) (hr : WF rtol) :
+    isIntOrInverseInt q rtol = isIntOrInverseInt (toReal q) (toReal rtol) := by
+  unfold isIntOrInverseInt
+  simp only []
+  rw [near_int_test_toReal q rtol h hr, near_int_test_toReal _ rtol (div_wf _ q) hr,
+    toReal_div (intCast_wf 1) h, toReal_intCast]
+
+/-- **sourcePhaseFactor_toReal**: the integer-ratio test (acceptance and number of repetitions) evaluated over
+`Q` is the one the theorems are about -/
+theorem sourcePhaseFactor_toReal (f pf rtol : Q) (hf : WF f) (hpf : WF pf) (hr : WF rtol) :
+    sourcePhaseFactor f pf rtol = sourcePhaseFactor (toReal f) (toReal pf) (toReal rtol) := by
+  unfold sourcePhaseFactor
+  have k0 := toReal_le hpf (intCast_wf 0)
+  rw [toReal_intCast] at k0
+  obtain ⟨haw, hav⟩ := absv_toReal f hf
+  have hq : WF (absv f / pf) := div_wf _ _
+  have hqv : toReal (absv f / pf) = absv (toReal f) / toReal pf := by rw [toReal_div haw hpf, hav]
+  by_cases hp : pf ≤ ((0 : Int) : Q)
+  · rw [if_pos hp, if_pos (k0.mp hp)]
+  · rw [if_neg hp, if_neg (fun hh => hp (k0.mpr hh))]
+    simp only []
+    rw [isIntOrInverseInt_toReal _ rtol hq hr, hqv]
+    have k1 := toReal_lt hq (intCast_wf 1)
+    rw [toReal_intCast, hqv] at k1
+    split
+    · rfl
+    · congr 1
+      by_cases h1 : absv f / pf < ((1 : Int) : Q)
+      · rw [if_pos h1, if_pos (k1.mp h1)]
+        show Q.rintInt _ = rintReal _
+        rw [rintInt_toReal _ (intCast_wf 1), toReal_intCast]
+      · rw [if_neg h1, if_neg (fun hh => h1 (k1.mpr hh))]
+        show Q.rintInt _ = rintReal _
+        rw [rintInt_toReal _ hq, hqv]
+
+/-- consequently the cascade expansion over `Q` embeds as well -/
+theorem fromDiskChopper_toReal (d : Disk Q) (h : DiskWF d) (pf rtol : Q) (hpf : WF pf) (hr : WF rtol) (np : ℕ) :
+    (match fromDiskChopper d pf rtol np with
+      | .error e => (Except.error e : Except DiskChopper.Err (List ℝ × List ℝ))
+      | .ok (o, c) => .ok (o.map toReal, c.map toReal)) =
+    fromDiskChopper (diskToReal d) (toReal pf) (toReal rtol) np := by
+  unfold fromDiskChopper
+  have hs := sourcePhaseFactor_toReal d.freq pf rtol h.1 hpf hr
+  have hfr : (diskToReal d).freq = toReal d.freq := rfl
+  rw [hfr, ← hs]
+  cases hres : sourcePhaseFactor d.freq pf rtol with
+  | error e => rfl
+  | ok n =>
+    simp only []
+    have hoff : ∀ ts : List Q, (∀ t ∈ ts, WF t) →
+        (addPulseOffsets pf np ts).map toReal = addPulseOffsets (toReal pf) np (ts.map toReal) := by
+      intro ts hts
+      simp only [addPulseOffsets, List.map_flatMap, List.map_map]
+      congr 1; funext j
+      apply List.map_congr_left
+      intro t ht
+      simp only [Function.comp]
+      rw [toReal_add (mul_wf _ _) (hts t ht), toReal_mul (intCast_wf _) (div_wf _ _),
+        toReal_div (intCast_wf 1) hpf, toReal_intCast, toReal_intCast]
+    have hwf : ∀ (angles : List Q) (m : ℕ), ∀ t ∈ timeOffsetAngleAtBeam d angles m, WF t := by
+      intro angles m t ht
+      simp only [timeOffsetAngleAtBeam, List.mem_map] at ht
+      obtain ⟨a, _, rfl⟩ := ht
+      exact div_wf _ _
+    have ho : ∀ t ∈ timeOffsetOpen d n.toNat, WF t := fun t ht => hwf _ _ t ht
+    have hc : ∀ t ∈ timeOffsetClose d n.toNat, WF t := fun t ht => hwf _ _ t ht
+    rw [hoff _ ho, hoff _ hc, timeOffsetOpen_toReal d h, timeOffsetClose_toReal d h]
+
 end ScnVerif.Props.C10
